@@ -296,7 +296,7 @@ def step (d : DS) (op implObs : String) : DS × String × List String :=
   let stoppedNow := d.m.running && (qst = "Stopped" || qst = "Stopping") &&
     !(c1.evs.any fun t => match t with | .fixed .stopAll => true | _ => false)
   let tpls := c1.evs.reverse ++ (if stoppedNow then [.fixed .stopAll] else []) ++ [.fixed (.run qRunning)]
-  let cands := (expand n tpls).map fun es => run d.m es
+  let cands := (expand n tpls).map fun es => runFixed d.m es
   let implAcct := acctOfImpl ws due act
   let hit := cands.find? fun m => acctOfModel m = implAcct
   let known := ["start", "stop", "gate", "ws", "wsretry", "msg", "disconnect", "peer", "obs", "diskcheck"].contains name
